@@ -239,6 +239,88 @@ fn c14_program(rng: &mut Rng) -> String {
     s
 }
 
+/// One access site, many receivers: helper functions whose single field read / field write / method
+/// call / operator / index instruction is executed with receivers of different layouts (same field
+/// names in another order or at another position, own versus inherited methods, objects overriding
+/// operators and get/set next to integers and arrays), in varying order and repeatedly. Anything a VM
+/// remembers per site or per name must not leak from one receiver to the next.
+pub fn poly_program(rng: &mut Rng) -> String {
+    let mut s = String::from(
+        "function getx(o) -> o.x;\nfunction setx(o, v) -> o.x <- v;\nfunction gety(o) -> o.y;\nfunction callm(o, a) -> o.m(a);\nfunction plus(a, b) -> a + b;\nfunction less(a, b) -> a < b;\nfunction at(c, i) -> c[i];\nfunction put(c, i, v) -> c[i] <- v;\n",
+    );
+    let pool = ["x", "y", "z", "w", "q", "r"];
+    let nobj = 3 + rng.below(4);
+    let mut with_plus: Vec<usize> = Vec::new();
+    let mut with_get: Vec<usize> = Vec::new();
+    for k in 0..nobj {
+        // x and y always present, at random positions among 0–4 other fields
+        let mut fields: Vec<&str> = vec!["x", "y"];
+        for f in pool[2..].iter() {
+            if rng.chance(1, 2) {
+                fields.push(f);
+            }
+        }
+        rng.shuffle(&mut fields);
+        let parent = if k > 0 && rng.chance(1, 3) { format!(" extends o{}", rng.below(k)) } else { String::new() };
+        s.push_str(&format!("let o{} = object{} begin ", k, parent));
+        for (j, f) in fields.iter().enumerate() {
+            s.push_str(&format!("let {} = {}; ", f, (k + 1) * 100 + j * 10 + match *f { "x" => 1, "y" => 2, _ => 3 }));
+        }
+        // some objects define m (reading a different field each), some inherit or lack it (then m comes from the parent only)
+        if parent.is_empty() || rng.chance(1, 2) {
+            let which = fields[rng.below(fields.len())];
+            s.push_str(&format!("function m(a) -> this.{} + a; ", which));
+        }
+        if rng.chance(1, 3) {
+            s.push_str(&format!("function +(b) -> {}; function <(b) -> {}; ", 7000 + k, if k % 2 == 0 { "true" } else { "false" }));
+            with_plus.push(k);
+        }
+        if rng.chance(1, 3) {
+            s.push_str(&format!("function get(i) -> this.{} + i; function set(i, v) -> this.{} <- v; ", fields[0], fields[fields.len() - 1]));
+            with_get.push(k);
+        }
+        s.push_str("end;\n");
+    }
+    s.push_str("let arr = array(4, 40);\nlet arr2 = array(2, o0);\n");
+    let obj = |rng: &mut Rng| format!("o{}", rng.below(nobj));
+    let steps = 8 + rng.below(14);
+    for st in 0..steps {
+        let line = match rng.below(9) {
+            0 => format!("print(\"g{} ~ ~\\n\", getx({}), getx({}));\n", st, obj(rng), obj(rng)),
+            1 => format!("print(\"s{} ~\\n\", setx({}, {}));\n", st, obj(rng), st * 3),
+            2 => format!("print(\"y{} ~ ~ ~\\n\", gety({}), gety({}), gety({}));\n", st, obj(rng), obj(rng), obj(rng)),
+            3 => format!("print(\"m{} ~ ~\\n\", callm({}, {}), callm({}, 1));\n", st, obj(rng), st, obj(rng)),
+            4 => {
+                // operators: integers and (only objects that define +) objects at the same site
+                let third = if with_plus.is_empty() { "plus(0, 0)".to_string() } else { format!("plus(o{}, {})", with_plus[rng.below(with_plus.len())], st) };
+                let fourth = if with_plus.is_empty() { "less(1, 2)".to_string() } else { format!("less(o{}, 1)", with_plus[rng.below(with_plus.len())]) };
+                format!("print(\"p{} ~ ~ ~ ~ ~\\n\", plus({}, 2), {}, plus(getx({}), gety({})), {}, less({}, 5));\n", st, st, third, obj(rng), obj(rng), fourth, st)
+            }
+            5 => {
+                let third = if with_get.is_empty() { "at(arr, 0)".to_string() } else { format!("at(o{}, {})", with_get[rng.below(with_get.len())], st) };
+                format!("print(\"a{} ~ ~ ~ ~\\n\", at(arr, {}), {}, at(arr2, {}), at(arr, {}));\n", st, rng.below(4), third, rng.below(2), rng.below(4))
+            }
+            6 => {
+                let third = if with_get.is_empty() { String::new() } else { format!(" put(o{}, {}, {});", with_get[rng.below(with_get.len())], st, st * 7) };
+                format!("put(arr, {}, {});{} put(arr2, {}, {});\n", rng.below(4), st, third, rng.below(2), obj(rng))
+            }
+            7 => {
+                // the same sites alternating between two receivers inside a loop
+                let (a, b) = (obj(rng), obj(rng));
+                format!("let i{st} = 0; while i{st} < 5 do begin let t = if i{st} % 2 == 0 then {a} else {b}; print(\"l{st} ~ ~ ~;\", getx(t), gety(t), setx(t, i{st})); i{st} <- i{st} + 1 end; print(\"\\n\");\n", st = st, a = a, b = b)
+            }
+            _ => format!("print(\"o{} ~\\n\", {});\n", st, obj(rng)),
+        };
+        s.push_str(&line);
+    }
+    s.push_str("print(\"end\");\n");
+    for k in 0..nobj {
+        s.push_str(&format!("print(\" ~\", o{});\n", k));
+    }
+    s.push_str("print(\" ~ ~\\n\", arr, arr2);\n");
+    s
+}
+
 pub fn c14(ctx: &Ctx, rep: &mut Report) {
     if let Some(r) = &ctx.replay {
         if let Some(src) = r.get("src").and_then(|s| s.as_str()) {
@@ -261,7 +343,9 @@ pub fn c14(ctx: &Ctx, rep: &mut Report) {
             break;
         }
         let mut rng = ctx.rng("C14", i);
-        let src = c14_program(&mut rng);
+        let poly = i % 4 == 3;
+        let src = if poly { poly_program(&mut rng) } else { c14_program(&mut rng) };
+        rep.bump("c14-generator", if poly { "polymorphic access sites" } else { "object model" });
         let ast = match real::parse(&src) {
             Ok(a) => a,
             Err(e) => {
@@ -398,6 +482,21 @@ fn c07_roundtrip(rep: &mut Report, origin: &str, ast: &AST, rng: &mut Rng, layou
     }
 }
 
+const FML_KEYWORDS: [&str; 17] = ["begin", "end", "if", "then", "else", "let", "null", "print", "object", "extends", "while", "do", "function", "array", "true", "false", "this"];
+
+/// words that are keywords, types or built-ins elsewhere (and identifiers in FML)
+const OTHER_WORDS: [&str; 206] = [
+    "elif", "elsif", "elseif", "elsif_", "unless", "until", "for", "foreach", "forall", "in", "of", "to", "downto", "step", "by", "return", "break", "continue", "next", "redo", "goto", "var", "val", "def", "defn", "fn", "func", "fun",
+    "lambda", "proc", "sub", "method", "class", "new", "delete", "self", "super", "base", "not", "and", "or", "xor", "mod", "div", "rem", "shl", "shr", "is", "isnt", "as", "typeof", "instanceof", "sizeof", "repeat", "loop",
+    "match", "case", "switch", "default", "when", "otherwise", "try", "catch", "except", "finally", "throw", "raise", "throws", "import", "export", "module", "package", "use", "using", "namespace", "include", "require", "from",
+    "nil", "none", "void", "unit", "undefined", "nan", "inf", "int", "integer", "bool", "boolean", "string", "str", "char", "float", "double", "long", "short", "byte", "type", "struct", "enum", "union", "trait", "impl",
+    "interface", "implements", "inherits", "abstract", "virtual", "override", "final", "sealed", "pub", "public", "private", "protected", "internal", "mut", "const", "static", "extern", "inline", "volatile", "register",
+    "where", "with", "without", "yield", "async", "await", "defer", "go", "chan", "select", "fi", "done", "esac", "endif", "endwhile", "od", "endfunction", "endobject", "begins", "ends", "local", "global", "nonlocal",
+    "pass", "assert", "del", "exec", "lambda_", "elifs", "ifelse", "iff", "then_", "otherwise_", "let_", "letrec", "rec", "set", "get", "put", "call", "apply", "eval", "quote", "cons", "car", "cdr", "list", "map", "filter",
+    "fold", "reduce", "len", "length", "size", "push", "pop", "print_", "println", "printf", "puts", "echo", "write", "read", "input", "output", "main", "args", "argv", "exit", "halt", "abort", "panic", "error", "ok", "some",
+    "maybe", "just", "nothing", "either", "left", "right", "arr", "obj",
+];
+
 pub fn c07(ctx: &Ctx, rep: &mut Report) {
     if let Some(r) = &ctx.replay {
         if let (Some(src), Some(exp)) = (r.get("src").and_then(|s| s.as_str()), r.get("expected_ast")) {
@@ -446,6 +545,76 @@ pub fn c07(ctx: &Ctx, rep: &mut Report) {
         }
     }
     rep.count("operator_triples", 13 * 13 * 13);
+    // (1b) every word that is not one of the 17 documented keywords is an identifier, in every
+    // identifier position: all words of up to three lower-case letters, other languages' keywords and
+    // type names, and near-misses of FML's own keywords
+    let mut words: Vec<String> = Vec::new();
+    let letters: Vec<char> = ('a'..='z').collect();
+    for a in letters.iter() {
+        words.push(a.to_string());
+        for b in letters.iter() {
+            words.push(format!("{}{}", a, b));
+            for c in letters.iter() {
+                words.push(format!("{}{}{}", a, b, c));
+            }
+        }
+    }
+    for w in OTHER_WORDS.iter() {
+        words.push(w.to_string());
+        let mut cap = w.to_string();
+        cap[..1].make_ascii_uppercase();
+        words.push(cap);
+        words.push(w.to_uppercase());
+    }
+    for kw in FML_KEYWORDS.iter() {
+        for v in [format!("{}_", kw), format!("_{}", kw), format!("{}1", kw), format!("{}s", kw), format!("{}{}", kw, kw), kw.to_uppercase(), format!("{}{}", kw[..1].to_uppercase(), &kw[1..]), format!("{}if", kw), format!("un{}", kw), format!("{}_{}", kw, kw)] {
+            words.push(v);
+        }
+        for cut in 1..kw.len() {
+            words.push(kw[..cut].to_string());
+            words.push(kw[cut..].to_string());
+        }
+    }
+    words.sort();
+    words.dedup();
+    words.retain(|w| !FML_KEYWORDS.contains(&w.as_str()));
+    let mut kw = 0u64;
+    for w in words.iter() {
+        kw += 1;
+        if !ctx.mine(kw) {
+            continue;
+        }
+        rep.evaluations += 1;
+        let id = || idn(w);
+        let v = || AST::access_variable(idn(w));
+        let expect = AST::top(vec![
+            AST::variable(id(), AST::Integer(1)),
+            AST::function(id(), vec![id()], v()),
+            AST::variable(
+                idn("o"),
+                AST::object(AST::Null, vec![AST::variable(id(), AST::Integer(2)), AST::function(id(), vec![id(), idn("q")], AST::call_method(AST::access_field(AST::access_variable(idn("this")), id()), idn("+"), vec![v()]))]),
+            ),
+            AST::print("~ ~ ~\\n".into(), vec![v(), AST::call_function(id(), vec![v()]), AST::call_method(AST::access_variable(idn("o")), id(), vec![v(), AST::access_field(AST::access_variable(idn("o")), id())])]),
+            AST::assign_field(AST::access_variable(idn("o")), id(), AST::conditional(v(), v(), v())),
+            AST::assign_variable(id(), AST::access_array(v(), v())),
+            AST::loop_de_loop(v(), v()),
+        ]);
+        let src = format!(
+            "let {w} = 1;\nfunction {w}({w}) -> {w};\nlet o = object begin let {w} = 2; function {w}({w}, q) -> this.{w} + {w}; end;\nprint(\"~ ~ ~\\n\", {w}, {w}({w}), o.{w}({w}, o.{w}));\no.{w} <- if {w} then {w} else {w};\n{w} <- {w}[{w}];\nwhile {w} do {w}\n",
+            w = w
+        );
+        match real::parse(&src) {
+            Ok(ast) => {
+                rep.conclusive += 1;
+                rep.nontrivial(hash_str(&src));
+                if ast != expect {
+                    rep.violation("C07:identifier-word", format!("the word `{}` in identifier positions: parsed tree differs from the documented one", w), json!({"check":"C07","src":src,"expected_ast": serde_json::to_value(&expect).unwrap_or_default()}));
+                }
+            }
+            Err(e) => rep.violation("C07:identifier-word-rejected", format!("`{}` is not a keyword, but a program that uses it as variable, parameter, field, function and method name is rejected: {}", w, e), json!({"check":"C07","src":src,"expected_ast": serde_json::to_value(&expect).unwrap_or_default()})),
+        }
+        rep.bump("c07-identifier-words", &format!("{} letters", w.len().min(8)));
+    }
     // longer chains (4-9 operators), sampled, against the same independent climbing parser; written
     // with and without blanks
     let nc = ctx.share(100_000, 3_000_000);
